@@ -49,9 +49,10 @@ func (d *dialer) Dial() (transport.Pipe, error) {
 	d.lock.Lock()
 	config := d.config
 	maxRecvSize := d.maxRecvSize
+	nd := *d.d // SetOption may change the keep-alive setting while we dial
 	d.lock.Unlock()
 
-	conn, err := tls.DialWithDialer(d.d, "tcp", d.addr, config)
+	conn, err := tls.DialWithDialer(&nd, "tcp", d.addr, config)
 	if err != nil {
 		return nil, err
 	}
@@ -82,7 +83,9 @@ func (d *dialer) SetOption(n string, v interface{}) error {
 		return mangos.ErrBadValue
 	case mangos.OptionKeepAliveTime:
 		if b, ok := v.(time.Duration); ok {
+			d.lock.Lock()
 			d.d.KeepAlive = b
+			d.lock.Unlock()
 			return nil
 		}
 		return mangos.ErrBadValue
@@ -98,11 +101,13 @@ func (d *dialer) SetOption(n string, v interface{}) error {
 		return mangos.ErrBadValue
 	case mangos.OptionKeepAlive:
 		if b, ok := v.(bool); ok {
+			d.lock.Lock()
 			if b {
 				d.d.KeepAlive = 0 // Enable (default time)
 			} else {
 				d.d.KeepAlive = -1 // Disable
 			}
+			d.lock.Unlock()
 			return nil
 		}
 		return mangos.ErrBadValue
